@@ -84,7 +84,7 @@ async def gather_without_errors(*futures: Future) -> list:
     return [r for r in results if not isinstance(r, Exception)]
 
 
-FindResultType = TypeVar("FindResultType", Node, DHTValue)
+FindResultType = TypeVar("FindResultType", Node, DHTValue, bytes)
 
 
 def merge_results(results: tuple[list[FindResultType], ...]) -> tuple[FindResultType, ...]:
@@ -592,8 +592,8 @@ class DHTCommunity(Community):
             crawl.routing_table.add(node)
             crawl.add_response(node, result)
 
-    async def _find(self, crawl: Crawl, debug: bool = False) -> list[Node] | list[DHTValue] | \
-                                                                tuple[list[DHTValue], Crawl]:
+    async def _find(self, crawl: Crawl, debug: bool = False) -> list[Node] | list[bytes] | \
+                                                                tuple[list[bytes], Crawl]:
         tasks: set[Future | Task] = set()
         while True:
             # Keep running tasks until work is done.
@@ -618,8 +618,8 @@ class DHTCommunity(Community):
             await self.store_on_nodes(crawl.target, values, [cache_candidate])
 
         if debug:
-            return self.post_process_values(values), crawl
-        return self.post_process_values(values)
+            return values, crawl
+        return values
 
     def post_process_values(self, values: list[bytes]) -> list[DHTValue]:
         """
@@ -663,19 +663,25 @@ class DHTCommunity(Community):
         Get the values belonging to the given target key.
         """
         futures: list[Coroutine[Any, Any, list[Node] |
-                                          list[DHTValue] |
-                                          tuple[list[DHTValue], Crawl]]] = []
+                                          list[bytes] |
+                                          tuple[list[bytes], Crawl]]] = []
         for routing_table in self.routing_tables.values():
             crawl = Crawl(target, routing_table, force_nodes=force_nodes, offset=offset)
             futures.append(self._find(crawl, debug=debug))
         results = await gather(*futures)
 
         if debug:
-            results_debug = cast("tuple[tuple[list[DHTValue], Crawl], ...]", results)
-            return tuple(*[r[0] for r in results_debug]), cast("list[Crawl]", [r[1] for r in results_debug])
-        # ``results`` is of type ``tuple[list[Node] | list[DHTValue], ...]``
+            results_debug = cast("tuple[tuple[list[bytes], Crawl], ...]", results)
+            values = merge_results(tuple(r[0] for r in results_debug))
+            return (tuple(self.post_process_values(list(values))),  # type: ignore[arg-type]
+                    cast("list[Crawl]", [r[1] for r in results_debug]))
+        # ``results`` is of type ``tuple[list[Node] | list[bytes], ...]``
         # However, mypy 1.13.0 is not yet powerful enough to infer the argument type from this.
-        return merge_results(results)  # type: ignore[arg-type]
+        merged = merge_results(results)  # type: ignore[arg-type]
+        if force_nodes:
+            return merged
+        # Unpack the values of all crawls (one per address family) together: one result per signer.
+        return tuple(self.post_process_values(list(merged)))  # type: ignore[arg-type]
 
     async def find_values(self, target: bytes, offset: int = 0,
                           debug: bool = False) -> (tuple[DHTValue, ...]
